@@ -49,6 +49,10 @@ def _is_reference_reset_loop(eng, f, g):
                             if pol and isinstance(c, ast.Compare) and len(c.ops) == 1 and isinstance(c.ops[0], ast.Eq) and isinstance(c.comparators[0], ast.Constant) \
                                     and "axis" in ast.unparse(c.left):
                                 axes = {c.comparators[0].value}
+                            elif pol and isinstance(c, ast.Compare) and len(c.ops) == 1 and isinstance(c.ops[0], ast.Eq) and isinstance(c.comparators[0], ast.Name) \
+                                    and "axis" in ast.unparse(c.left) and c.comparators[0].id in f.params() \
+                                    and not any(isinstance(x, ast.Name) and x.id == c.comparators[0].id and isinstance(x.ctx, ast.Store) for x in ast.walk(f.node)):
+                                axes = {("axis named", c.comparators[0].id)}
                             else:
                                 axes = set()
                         prev = out.get(n.id)
@@ -73,6 +77,8 @@ def _written_axes(site):
             first = sl.elts[0] if isinstance(sl, ast.Tuple) and sl.elts else sl
             if isinstance(first, ast.Constant) and isinstance(first.value, int):
                 return {first.value}
+            if isinstance(first, ast.Name):
+                return {("axis named", first.id)}  # a helper that serves one axis given by its parameter: the reset must select the same name
     return "all"
 
 
@@ -448,32 +454,32 @@ def _source_formulas(eng, R):
     S, M, CM = "SimpleGaussianError", "MatrixGaussianError", "CovMat"
     KS = ["self.reference", "self.error", "self.error_rel", "self._err", "self._err_rel", "()abs", "error_array", "corr_coeff", "()outer", "()diag", "()zeros_like"]
     g = "_calculate_cov_mat_generic"
-    check(eng, R, "Hsrc", S, g, "assign", "diag(error_array ** 2 * (1 - corr_coeff))", target="cov_mat_uncor_part", when="=(corr_coeff > 0)", known=KS,
-          what="uncorrelated part = (1 - rho) sigma^2 on the diagonal")
-    check(eng, R, "Hsrc", S, g, "assign", "outer(error_array, error_array) * corr_coeff", target="cov_mat_cor_part", when="=(corr_coeff > 0)", known=KS,
-          what="correlated part = rho outer(sigma, sigma)")
-    check(eng, R, "Hsrc", S, g, "assign", "diag(error_array ** 2)", target="cov_mat_uncor_part", when="=not (corr_coeff > 0)", known=KS, what="uncorrelated source: sigma^2 on the diagonal")
-    check(eng, R, "Hsrc", S, g, "assign", "zeros_like(diag(error_array ** 2))", target="cov_mat_cor_part", when="=not (corr_coeff > 0)", known=KS, what="uncorrelated source: no correlated part")
-    check(eng, R, "Hsrc", S, g, "return", "CovMat(cov_mat_uncor_part + cov_mat_cor_part)", index=0, known=KS + ["cov_mat_uncor_part", "cov_mat_cor_part"], what="covariance = uncorrelated part + correlated part")
-    f = get_func(p, S, "_calculate_cov_mat")
-    if extract(f, "assign", "_abs_err", "=(self.relative)"):
-        check(eng, R, "Hsrc", S, "_calculate_cov_mat", "assign", "self.error_rel * self.reference", target="_abs_err", when="=(self.relative)", known=KS,
-              what="sigma of a relative source = relative size x current reference values (signed: the correlated part is rho outer(sigma, sigma))")
-        check(eng, R, "Hsrc", S, "_calculate_cov_mat", "assign", "self.error", target="_abs_err", when="=not (self.relative)", known=KS, what="sigma of an absolute source = its stored values")
-    else:
-        forms = sorted({x.canon() for _, x, _ in extract(f, "assign", "_abs_err")})
-        if forms == ["self.error"]:
-            R.ob("Hsrc", "%s._calculate_cov_mat:_abs_err:=(self.relative)" % S, False, (f.file, f.lineno),
-                 "the covariance of a relative source is built from `self.error` = relative size x |reference|: for reference values of mixed sign the off-diagonal "
-                 "elements rho sigma_i sigma_j lose their sign, the total is no longer the sum of (sigma sigma^T) o rho with sigma = relative size x values")
-        else:
-            raise AnalysisError("SimpleGaussianError._calculate_cov_mat: sigma of a relative source not recognised (%s)" % forms)
-    check(eng, R, "Hsrc", S, "_calculate_cov_mat_rel", "assign", "self.error_rel", target="_rel_err", known=KS, what="relative covariance is built from the relative sizes")
-    for fn, arg in (("_calculate_cov_mat", "_abs_err"), ("_calculate_cov_mat_rel", "_rel_err")):
+    # end to end: what the source stores as its (relative) covariance and its two parts, per branch (the shared helper is read through, wherever it lives)
+    KS2 = KS + ["self._corr_coeff"]
+    RHO = "self._corr_coeff"
+
+    def parts(sig):
+        pos = ("diag((%s) ** 2 * (1 - %s))" % (sig, RHO), "outer(%s, %s) * %s" % (sig, sig, RHO))
+        neg = ("diag((%s) ** 2)" % sig, "zeros_like(diag((%s) ** 2))" % sig)
+        return pos, neg
+
+    for fn, stem, branches in (("_calculate_cov_mat", "self._cov_mat", [(["(self.relative)"], "self.error_rel * self.reference"), (["not (self.relative)"], "self.error")]),
+                               ("_calculate_cov_mat_rel", "self._cov_mat_rel", [([], "self.error_rel")])):
         f = get_func(p, S, fn)
-        calls = [c for c in ast.walk(f.node) if isinstance(c, ast.Call) and isinstance(c.func, ast.Attribute) and c.func.attr == "_calculate_cov_mat_generic"]
-        ok = len(calls) == 1 and [ast.unparse(a) for a in calls[0].args] == [arg, "self._corr_coeff"] and not calls[0].keywords
-        R.ob("Hsrc", "%s.%s:generic call" % (S, fn), ok, (f.file, f.lineno), "%s must build the matrix from (%s, self._corr_coeff)" % (fn, arg))
+        for conds, sig in branches:
+            if fn == "_calculate_cov_mat" and conds == ["(self.relative)"]:
+                got = sorted({x.canon() for _, x, _ in extract(f, "store", stem + "_uncor_part", conds + ["not (%s > 0)" % RHO], node=eng.cnode(f))})
+                if got == ["diag(self.error**2)"]:
+                    R.ob("Hsrc", "%s._calculate_cov_mat:_abs_err:=(self.relative)" % S, False, (f.file, f.lineno),
+                         "the covariance of a relative source is built from `self.error` = relative size x |reference|: for reference values of mixed sign the off-diagonal "
+                         "elements rho sigma_i sigma_j lose their sign, the total is no longer the sum of (sigma sigma^T) o rho with sigma = relative size x values")
+                    continue
+            (pu, pc), (nu, nc) = parts(sig)
+            for when, (u, c) in ((["(%s > 0)" % RHO], (pu, pc)), (["not (%s > 0)" % RHO], (nu, nc))):
+                what = "sigma = %s; %s" % (sig, "(1 - rho) sigma^2 on the diagonal + rho outer(sigma, sigma)" if when[0].startswith("(") else "uncorrelated: sigma^2 on the diagonal")
+                check(eng, R, "Hsrc", S, fn, "store", "CovMat(%s + %s)" % (u, c), target=stem, when=conds + when, known=KS2, what="covariance: " + what)
+                check(eng, R, "Hsrc", S, fn, "store", u, target=stem + "_uncor_part", when=conds + when, known=KS2, what="uncorrelated part: " + what)
+                check(eng, R, "Hsrc", S, fn, "store", c, target=stem + "_cor_part", when=conds + when, known=KS2, what="correlated part: " + what)
     KM = ["self.error", "self.error_rel", "self.cov_mat", "self.cov_mat_rel", "self.reference", "self._cov_mat", "self._cov_mat_rel", "()diag", "()sqrt"]
     check(eng, R, "Hsrc", M, "cov_mat", "assign", "self._calculate_cov_mat_from_cov_rel(self.cov_mat_rel, self.reference)", target="self._cov_mat", when="=(self.relative)", known=KM,
           what="absolute covariance of a relative matrix source = relative covariance converted with the current reference")
@@ -496,26 +502,46 @@ def _source_formulas(eng, R):
         for pn, (axis, attr) in sorted(names.items()):
             spec = "self.get_total_error(%s).%s" % ("" if axis is None else "axis=%d" % axis, attr)
             check(eng, R, "Htot", cname, pn, "return", spec, known=["self.get_total_error", "()self.get_total_error", ".error", ".cov_mat", ".cor_mat", ".cov_mat_inverse", ".cov_mat_rel", ".error_rel"], what="%s must be read from the total of %s" % (pn, "the container" if axis is None else "axis %d" % axis))
-    for cname, accs in (("IndexedContainer", {None: ("_tmp_cov_mat", "_data")}), ("XYContainer", {0: ("_tmp_cov_mat_x", "_x"), 1: ("_tmp_cov_mat_y", "_y")})):
+    # canonical form + placeholders for the remaining locals (accumulators, loop variable): `_acc`, `_ax`, `_ay`, `_e` stand for whatever they are called
+    for cname, accs in (("IndexedContainer", {None: ("_acc", "self.data")}), ("XYContainer", {0: ("_ax", "self.x"), 1: ("_ay", "self.y")})):
         f = get_func(p, cname, "_calculate_total_error")
-        src = common.src_of(f.node)
+        fn = eng.cnode(f)
+        src = eng.csrc(f)
+        loop_ok = src.like("for _e in self._error_dicts.values(): if _e['enabled']:")
         for axis, (acc, ref) in sorted(accs.items(), key=lambda kv: str(kv[0])):
-            inits = [n for n in ast.walk(f.node) if isinstance(n, ast.Assign) and any(isinstance(t, ast.Name) and t.id == acc for t in n.targets)]
-            ok = len(inits) == 1 and " ".join(ast.unparse(inits[0].value).split()) == "np.zeros((_sz, _sz))"
-            augs = [n for n in ast.walk(f.node) if isinstance(n, ast.AugAssign) and isinstance(n.target, ast.Name) and n.target.id == acc]
-            ok = ok and len(augs) == 1 and isinstance(augs[0].op, ast.Add) and " ".join(ast.unparse(augs[0].value).split()) == "_err_dict['err'].cov_mat"
-            if ok and axis is not None:
-                conds = common.guard_conditions(f.node, augs[0])
-                ok = any(pol and " ".join(ast.unparse(c).split()) == "_err_dict['axis'] == %d" % axis for c, pol in conds)
-            R.ob("Htot", "%s._calculate_total_error:accumulate%s" % (cname, "" if axis is None else ":axis %d" % axis), ok, (f.file, f.lineno),
-                 "the total must be `%s = zeros; %s += source.cov_mat` over the sources%s" % (acc, acc, "" if axis is None else " of axis %d" % axis))
+            ok = loop_ok and src.like("%s = np.zeros((self.size, self.size))" % acc)
+            if axis is None:
+                ok = ok and src.like("if _e['enabled']: %s += _e['err'].cov_mat" % acc)
+            else:
+                ok = ok and src.like("if _e['axis'] == %d: %s += _e['err'].cov_mat" % (axis, acc))
+            name = src._binding.get(acc)
+            if ok:
+                # one zero-initialisation and one accumulation per accumulator, nothing else stored to it
+                inits = [n for n in ast.walk(fn) if isinstance(n, ast.Assign) and any(isinstance(t, ast.Name) and t.id == name for t in n.targets)]
+                augs = [n for n in ast.walk(fn) if isinstance(n, ast.AugAssign) and isinstance(n.target, ast.Name) and n.target.id == name]
+                ok = len(inits) == 1 and len(augs) == 1 and isinstance(augs[0].op, ast.Add)
+                if ok and axis is not None:
+                    conds = common.guard_conditions(fn, augs[0])
+                    loopvar = src._binding.get("_e")
+                    ok = any(pol and " ".join(ast.unparse(c).split()) == "%s['axis'] == %d" % (loopvar, axis) for c, pol in conds) \
+                        and any(pol and " ".join(ast.unparse(c).split()) == "%s['enabled']" % loopvar for c, pol in conds)
+            R.ob("Htot", "%s._calculate_total_error:accumulate%s" % (cname, "" if axis is None else ":axis %d" % axis), bool(ok), (f.file, f.lineno),
+                 "the total must be `acc = zeros((size, size)); acc += source.cov_mat` over the enabled sources%s" % ("" if axis is None else " of axis %d" % axis))
             wrap = "MatrixGaussianError(%s, 'cov', relative=False, reference=%s)" % (acc, ref)
-            R.ob("Htot", "%s._calculate_total_error:wrap%s" % (cname, "" if axis is None else ":axis %d" % axis), wrap in src, (f.file, f.lineno),
+            R.ob("Htot", "%s._calculate_total_error:wrap%s" % (cname, "" if axis is None else ":axis %d" % axis), bool(ok) and src.like(wrap), (f.file, f.lineno),
                  "the accumulated matrix must be wrapped as absolute covariance with the current values as reference: %s" % wrap)
         if cname == "XYContainer":
-            R.ob("Htot", "XYContainer._calculate_total_error:order", "self._total_error = [_total_err_x, _total_err_y]" in src and "_total_err_x = MatrixGaussianError(_tmp_cov_mat_x" in src
-                 and "_total_err_y = MatrixGaussianError(_tmp_cov_mat_y" in src and "_x, _y = (self.x, self.y)" in src, (f.file, f.lineno), "totals must be stored as [x, y] (get_total_error indexes by axis)")
+            R.ob("Htot", "XYContainer._calculate_total_error:order",
+                 src.like("self._total_error = [MatrixGaussianError(_ax, 'cov', relative=False, reference=self.x), MatrixGaussianError(_ay, 'cov', relative=False, reference=self.y)]"),
+                 (f.file, f.lineno), "totals must be stored as [x, y] (get_total_error indexes by axis)")
+        else:
+            R.ob("Htot", "IndexedContainer._calculate_total_error:store", src.like("self._total_error = MatrixGaussianError(_acc, 'cov', relative=False, reference=self.data)"),
+                 (f.file, f.lineno), "the wrapped total must be stored as the container's total error")
         f = get_func(p, cname, "get_total_error")
-        src = common.src_of(f.node)
-        want = "return self._total_error" if cname == "IndexedContainer" else "return self._total_error[_axis]"
-        R.ob("Htot", "%s.get_total_error" % cname, want in src and "if self._total_error is None: self._calculate_total_error()" in src, (f.file, f.lineno), "get_total_error must compute the total when the cache is empty and return it")
+        src = eng.csrc(f)
+        if cname == "IndexedContainer":
+            ok = src.like("return self._total_error")
+        else:
+            ok = src.all_like("_a = self._find_axis_raise(axis)", "return self._total_error[_a]")
+        R.ob("Htot", "%s.get_total_error" % cname, ok and src.like("if self._total_error is None: self._calculate_total_error()"), (f.file, f.lineno),
+             "get_total_error must compute the total when the cache is empty and return it")
